@@ -170,56 +170,73 @@ def gen_dir():
 
 def translator_tie(chk, tie_files, gen_files):
     """Second tie: compile the regenerated Gen_*.v and the static Tie_*.v (gen = hand model for all arguments).
-    Not part of `make`: a source change the translator does not understand must not break the build - the tie is then
-    reported as unavailable and the correspondence run alone carries the property."""
+    Not part of `make`: a source change the translator does not understand must not break the build - that Tie file is
+    then reported as unavailable and the correspondence run alone carries the property.  Each Tie file is judged on its
+    own: unavailable when one of the functions it speaks about was not translated, broken when all were translated but
+    its theorems no longer prove, ok otherwise."""
     import py2coq
     st = {k: v for k, v in (chk.translator or {}).items()}
     wanted = {os.path.basename(g) for g in gen_files}
-    relevant = {fn.coq_name for fn in py2coq.TARGETS if (fn.file or py2coq.FILES[fn.cls]) in wanted}
-    res = {"status": "ok", "files": list(tie_files),
+    file_of = {fn.coq_name: (fn.file or py2coq.FILES[fn.cls]) for fn in py2coq.TARGETS}
+    relevant = {n for n, f in file_of.items() if f in wanted}
+    res = {"status": "ok", "files": list(tie_files), "per_file": {},
            "untranslatable": {k: v for k, v in st.items() if v != "ok" and k in relevant}}
     gd = gen_dir()
     private = gd != os.path.join(COQ, "gen")
+
+    def compile_one(rel, is_tie):
+        base = os.path.basename(rel)
+        if private:
+            # Gen_*.v were regenerated into the private directory by build(); Tie_*.v are copied there with their
+            # import of CM.gen.Gen_x redirected to the private logical root CMGEN
+            src = os.path.join(gd, base)
+            if is_tie:
+                txt = open(os.path.join(COQ, rel)).read()
+                gens = re.findall(r"\bgen\.(Gen_[A-Za-z0-9_]+)", txt)
+                txt = re.sub(r"\s*\bgen\.Gen_[A-Za-z0-9_]+", "", txt)
+                txt = txt.replace("(* Tie", "(* [private copy] Tie", 1)
+                first = txt.index("From CM Require Import")
+                eol = txt.index(".\n", first) + 2
+                txt = txt[:eol] + "".join("From CMGEN Require Import %s.\n" % g for g in gens) + txt[eol:]
+                open(src, "w").write(txt)
+            cmd = "timeout 300 coqc -Q %s CM -Q %s CMGEN %s" % (COQ, gd, base)
+            cwd = gd
+        else:
+            src = os.path.join(COQ, rel)
+            vo = src + "o"
+            if os.path.exists(vo) and os.path.getmtime(vo) >= os.path.getmtime(src) and not is_tie:
+                return 0, "", src
+            cmd = "timeout 300 coqc -Q . CM %s" % rel
+            cwd = COQ
+        rc, out = sh(cmd, cwd=cwd, timeout=330)
+        return rc, out, src
+
     with Lock("gen.lock"):
-        for rel in list(gen_files) + list(tie_files):
-            base = os.path.basename(rel)
-            if private:
-                # Gen_*.v were regenerated into the private directory by build(); Tie_*.v are copied there with their
-                # import of CM.gen.Gen_x redirected to the private logical root CMGEN
-                src = os.path.join(gd, base)
-                if rel in tie_files:
-                    txt = open(os.path.join(COQ, rel)).read()
-                    gens = re.findall(r"\bgen\.(Gen_[A-Za-z0-9_]+)", txt)
-                    txt = re.sub(r"\s*\bgen\.Gen_[A-Za-z0-9_]+", "", txt)
-                    txt = txt.replace("(* Tie", "(* [private copy] Tie", 1)
-                    first = txt.index("From CM Require Import")
-                    eol = txt.index(".\n", first) + 2
-                    txt = txt[:eol] + "".join("From CMGEN Require Import %s.\n" % g for g in gens) + txt[eol:]
-                    open(src, "w").write(txt)
-                cmd = "timeout 300 coqc -Q %s CM -Q %s CMGEN %s" % (COQ, gd, base)
-                cwd = gd
-            else:
-                src = os.path.join(COQ, rel)
-                vo = src + "o"
-                if os.path.exists(vo) and os.path.getmtime(vo) >= os.path.getmtime(src) and rel in gen_files:
-                    continue
-                cmd = "timeout 300 coqc -Q . CM %s" % rel
-                cwd = COQ
-            rc, out = sh(cmd, cwd=cwd, timeout=330)
+        gen_ok = {}
+        for rel in gen_files:
+            rc, out, _ = compile_one(rel, False)
+            gen_ok[os.path.basename(rel)] = (rc == 0)
             if rc != 0:
-                res["status"] = "unavailable"
-                res["failed_file"] = rel
                 res["log"] = out[-1500:]
-                break
-            if rel in tie_files:
-                n_thm = len(re.findall(r"(?m)^Theorem ", open(src).read()))
-                n_closed = out.count("Closed under the global context")
-                res.setdefault("theorems", 0)
-                res["theorems"] += n_thm
-                if n_closed != n_thm:
-                    res["status"] = "unavailable"
-                    res["log"] = out[-1500:]
-    if res["status"] != "ok" and not res["untranslatable"]:
+        for rel in tie_files:
+            txt = open(os.path.join(COQ, rel)).read()
+            its_gens = {g + ".v" for g in re.findall(r"\bgen\.(Gen_[A-Za-z0-9_]+)", txt)}
+            missing = sorted(n for n, f in file_of.items() if f in its_gens and st.get(n, "ok") != "ok")
+            if missing or not all(gen_ok.get(g, True) for g in its_gens):
+                res["per_file"][rel] = {"status": "unavailable", "untranslatable": missing}
+                continue
+            rc, out, src = compile_one(rel, True)
+            n_thm = len(re.findall(r"(?m)^Theorem ", open(src).read()))
+            n_closed = out.count("Closed under the global context")
+            if rc != 0 or n_closed != n_thm:
+                res["per_file"][rel] = {"status": "broken", "log": out[-1500:]}
+                res.setdefault("failed_file", rel)
+                res["log"] = out[-1500:]
+            else:
+                res["per_file"][rel] = {"status": "ok", "theorems": n_thm}
+                res["theorems"] = res.get("theorems", 0) + n_thm
+    states = {v["status"] for v in res["per_file"].values()}
+    if "broken" in states:
         # the source was translated, but the regenerated definitions are no longer proved equal to the hand model:
         # the model is not shown to describe the code for all arguments any more.  If the search and the correspondence
         # run find no failing input this still is reported (VIOLATION ... no-failing-input-found).
@@ -227,6 +244,12 @@ def translator_tie(chk, tie_files, gen_files):
         chk.obligation_failures.append("translator tie: %s no longer proves the regenerated definitions equal to the hand model"
                                        % res.get("failed_file", ",".join(tie_files)))
         chk.build_log = res.get("log", "")
+    elif states == {"ok"}:
+        res["status"] = "ok"
+    elif "ok" in states:
+        res["status"] = "partly unavailable"
+    else:
+        res["status"] = "unavailable"
     chk.ties["translator"] = res
     return res["status"] == "ok"
 
